@@ -48,6 +48,235 @@ def population(rng, quick):
     return pop
 
 
+# ---- histories over several complexes side by side (direct statement on the implementation, op c02_history) ----------
+
+SCRIBBLES = ("open", "unpair", "reverse", "clear", "rename")
+NAMES = ("N0", "N1", "N2", "c1", "c2", "c3")
+
+
+def history_pool(rng, quick):
+    """pairwise inequivalent complexes that share a lot: the same dot-bracket under several labellings, and the same strands
+    under another structure of the same shape (one pair opened / strands exchanged)"""
+    if rng.random() < 0.85:
+        s = rng.choice([x for x in gs.all_wf(6) if x.count("+") >= 1])
+    else:
+        s = gs.random_wf(rng, rng.choice([8, 14, 30]), p_break=0.25)
+    alph = rng.choice([("a", "b"), ("a", "b", "c"), ("a",), ("ab", "c", "a", "bc")])
+    cand = []
+    for nm in (alph, ("c", "d"), ("e", "f", "g"), alph):
+        cand.append((gs.seq_for(rng, s, names=nm, complementary=rng.random() < 0.6), list(s)))
+    pp = gs.pair_positions(s)
+    for sq, _ in list(cand[:2]):
+        if pp:
+            i, j = rng.choice(pp)
+            t = list(s)
+            t[i] = t[j] = "."
+            cand.append((list(sq), t))
+        cand.append((list(sq), ["." if x != "+" else "+" for x in s]))
+    seen, pool = set(), []
+    for sq, st in cand:
+        c = gen_pil.canon(sq, st)
+        if c not in seen:
+            seen.add(c)
+            pool.append([[list(a), list(b)] for a, b in gen_pil.rotations(sq, st)])
+    rng.shuffle(pool)
+    return pool[:rng.choice([2, 3, 4, 6])]
+
+
+def history_steps(rng, pool, n):
+    """requests with names that are free, taken (a NEW description refused because of its name; an automatic name that
+    collides with a hand-given one), or the right one; callers that edit lists handed out by the library; turns; deaths"""
+    steps, live = [], {}
+    for _ in range(n):
+        u = rng.random()
+        c = rng.randrange(len(pool))
+        if u < 0.62 or not live:
+            taken = sorted(set(live.values()) - {None})
+            v = rng.random()
+            if c in live and live[c] is not None and v < 0.5:
+                name = live[c]
+            elif taken and v < 0.7:
+                name = rng.choice(taken)
+            elif v < 0.85:
+                name = None
+            else:
+                name = rng.choice(NAMES)
+            steps.append(["new", c, rng.randrange(len(pool[c])), name])
+            if c not in live and (name is None or name not in live.values()):
+                live[c] = name          # (approximation, only steers the generator; automatic names are not tracked)
+        else:
+            c = rng.choice(sorted(live))
+            if u < 0.78:
+                steps.append(["scribble", c, rng.choice(SCRIBBLES)])
+            elif u < 0.88:
+                steps.append(["turn", c, rng.choice([0, 1, 2, -1, len(pool[c]), rng.randrange(-9, 10)])])
+            else:
+                steps.append(["drop", c])
+                live.pop(c)
+    return steps
+
+
+def history_expect(pool, steps):
+    """what the property (and the registry discipline it presupposes) demands of every step: (kind, complex, representation)"""
+    canons = [gen_pil.canon(*rots[0]) for rots in pool]
+    orbit = [gen_pil.rotations(list(cn[0]), list(cn[1])) for cn in canons]
+    live, ident, exp = {}, 1, []
+    for st in steps:
+        what, c = st[0], st[1]
+        if what == "new":
+            name = st[3] if st[3] is not None else f"c{ident}"
+            by_name = next((j for j, o in live.items() if o["name"] == name), None)
+            if c in live:
+                kind = "object" if by_name == c else ("refused-existing" if by_name is None else "refused-none")
+            elif by_name is None:
+                kind = "created"
+                live[c] = {"name": name, "rep": [list(x) for x in pool[c][st[2]]]}
+                if st[3] is None:
+                    ident += 1
+            else:
+                kind = "refused-none"
+            exp.append((kind, None if kind == "refused-none" else c, dict(live[c]) if kind != "refused-none" else None))
+        elif c not in live:
+            exp.append(("absent", None, None))
+        elif what == "scribble":
+            exp.append(("scribbled", c, dict(live[c])))
+        elif what == "turn":
+            n = len(orbit[c])
+            live[c]["rep"] = [list(x) for x in orbit[c][st[2] % n]]
+            live[c]["turns"] = st[2] % n
+            exp.append(("turned", c, dict(live[c])))
+        elif what == "drop":
+            live.pop(c)
+            exp.append(("dropped", c, None))
+    return canons, orbit, exp, live
+
+
+def history_judge(pool, steps, res):
+    if isinstance(res, Err):
+        return f"the history raised {res.kind}"
+    canons, orbit, exp, live = history_expect(pool, steps)
+    out, pairs, final = res
+
+    def check_obs(c, o, ob, where):
+        key, turns, sq, st, name = ob
+        if [list(canons[c][0]), list(canons[c][1])] != key:
+            return f"{where}: canonical form {key} of complex {c} is not its minimal rotation {canons[c]}"
+        if [sq, st] != o["rep"]:
+            return f"{where}: complex {c} is represented as {[sq, st]}, expected {o['rep']}"
+        if not isinstance(turns, int) or not 0 <= turns < len(orbit[c]) or [list(x) for x in orbit[c][turns]] != [sq, st] \
+                or ("turns" in o and o["turns"] != turns):
+            return f"{where}: turns = {turns} does not lead from the canonical form to the representation {[sq, st]}"
+        if name != o["name"]:
+            return f"{where}: complex {c} carries the name {name}, expected {o['name']}"
+        return None
+
+    for k, (st, r, e) in enumerate(zip(steps, out, exp)):
+        where = f"step {k} {st}"
+        if r[0] == "raised":
+            return f"{where} raised {r[1]}"
+        if r[0] != e[0] or r[1] != e[1]:
+            return (f"{where} (a rotation of complex {st[1]}) led to {r[0]}" + (f" of complex {r[1]}" if isinstance(r[1], int) and r[1] >= 0 else
+                    (" of a second object" if isinstance(r[1], int) else "")) + f", expected {e[0]}" + (f" of complex {e[1]}" if e[1] is not None else ""))
+        if e[2] is not None:
+            w = check_obs(e[1], e[2], r[2], where)
+            if w:
+                return w
+    for ja, jb, eq, ne, heq in pairs:
+        if eq or not ne or heq:
+            return f"the inequivalent complexes {ja} and {jb} compare equal ({eq}), not unequal ({not ne}) or have one hash ({heq})"
+    if sorted(j for j, _ in final) != sorted(live):
+        return f"objects alive at the end: {sorted(j for j, _ in final)}, expected {sorted(live)}"
+    for j, ob in final:
+        w = check_obs(j, live[j], ob, "at the end")
+        if w:
+            return w
+    return None
+
+
+def history_snippet(pool, steps, use_sub):
+    L = ["import gc", "from dsdobjects import SingletonError, clear_singletons",
+         "from dsdobjects.base_classes import ComplexS, DomainS", "from dsdobjects.complex_utils import rotate_complex_once",
+         "class K(ComplexS): pass" if use_sub else "K = ComplexS", "clear_singletons(K); clear_singletons(DomainS)",
+         "def doms(seq):", "    out = []", "    for x in seq:", "        try: out.append('+' if x == '+' else DomainS(x, 5))",
+         "        except SingletonError: out.append(DomainS(x))", "    return out",
+         "def ask(seq, sst, name):", "    try: return 'object', (K(doms(seq), list(sst), name = name) if name else K(doms(seq), list(sst)))",
+         "    except SingletonError as e: return 'refused', e.existing", "obj = {}"]
+    canons, orbit, exp, _ = history_expect(pool, steps)
+    for k, (st, e) in enumerate(zip(steps, exp)):
+        what, c = st[0], st[1]
+        if what == "new":
+            sq, ss = pool[c][st[2]]
+            L.append(f"kind, x = ask({sq!r}, {''.join(ss)!r}, {st[3]!r})   # step {k}: expected {e[0]}" + (f" of complex {e[1]}" if e[1] is not None else ""))
+            if e[0] == "created":
+                L.append(f"obj[{c}] = x")
+            if e[1] is not None:
+                L.append(f"assert x is obj[{c}] and x.canonical_form == {canons[c]!r}, (kind, x, getattr(x, 'canonical_form', None))")
+            else:
+                L.append("assert kind == 'refused' and x is None, (kind, x)")
+        elif e[0] == "absent":
+            continue
+        elif what == "scribble":
+            L.append(f"for s, t in list(obj[{c}].rotate()) + [rotate_complex_once(list(obj[{c}].sequence), list(obj[{c}].structure))]:   # step {k}: the caller edits ({st[2]}) lists it was given")
+            L.append({"open": "    t[:] = ['+' if x == '+' else '.' for x in t]", "clear": "    del s[:], t[:]",
+                      "reverse": "    s.reverse(); t[:] = [{'(': ')', ')': '('}.get(x, x) for x in reversed(t)]",
+                      "rename": "    s[:] = ['+' if x == '+' else 'zz' for x in s]",
+                      "unpair": "    i = t.index('(') if '(' in t else None\n    if i is not None:\n        d = 0\n        for j in range(i, len(t)):\n            d += {'(': 1, ')': -1}.get(t[j], 0)\n            if d == 0: t[i] = t[j] = '.'; break"}[st[2]])
+        elif what == "turn":
+            L.append(f"obj[{c}].turns = {st[2]}   # step {k}")
+        if what in ("scribble", "turn"):
+            L.append(f"assert [list(map(str, obj[{c}].sequence)), list(obj[{c}].structure)] == {e[2]['rep']!r} and obj[{c}].canonical_form == {canons[c]!r}")
+        elif what == "drop":
+            L.append(f"del obj[{c}]; x = None; gc.collect()   # step {k}")
+    L.append("assert all(a is b or (a != b and hash(a) != hash(b)) for a in obj.values() for b in obj.values())")
+    return "\n".join(L)
+
+
+def run_isolated(reqs):
+    """every request in a process of its own (nothing an earlier candidate left behind may decide about the next one)"""
+    import concurrent.futures as cf
+    if not reqs:
+        return []
+    with cf.ThreadPoolExecutor(8) as ex:
+        return list(ex.map(lambda rq: run_impl([rq], jobs=1)[0], reqs))
+
+
+def history_search(ctx, rng, quick):
+    """returns (failing inputs, number of histories, number of steps)"""
+    reqs = []
+    for _ in range(160 if quick else 2000):
+        pool = history_pool(rng, quick)
+        reqs.append(("c02_history", [pool, history_steps(rng, pool, rng.choice([5, 8, 12, 16])), rng.random() < 0.25]))
+    fails = [(rq, w) for rq, w in ((rq, history_judge(rq[1][0], rq[1][1], r)) for rq, r in zip(reqs, run_impl(reqs))) if w]
+    found, leaked = [], []
+    for rq, what in fails[:12]:
+        pool, steps, use_sub = rq[1]
+        # the history on its own, in a fresh process; then without the steps that are not needed
+        alone = history_judge(pool, steps, run_impl([rq], jobs=1)[0])
+        if not alone:
+            leaked.append((rq, what))
+            continue
+        what = alone
+        while True:
+            cands = [steps[:i] + steps[i + 1:] for i in range(len(steps))]
+            rs = run_isolated([("c02_history", [pool, c, use_sub]) for c in cands])
+            nxt = next(((c, w) for c, w in ((c, history_judge(pool, c, r_)) for c, r_ in zip(cands, rs)) if w), None)
+            if nxt is None:
+                break
+            steps, what = nxt
+        if True:
+            found.append({"key": {"history": [pool, steps, use_sub]}, "input": ["history", pool, steps, use_sub], "what": what,
+                          "snippet": history_snippet(pool, steps, use_sub)})
+        if len(found) >= 3:
+            break
+    if not found:
+        for rq, what in (leaked or fails)[:1]:
+            pool, steps, use_sub = rq[1]
+            found.append({"key": {"history": [pool, steps, use_sub]}, "input": ["history", pool, steps, use_sub],
+                          "what": what + " (only after other histories in the same process: something survives between independent histories)",
+                          "snippet": history_snippet(pool, steps, use_sub)})
+    return found, len(reqs), sum(len(rq[1][1]) for rq in reqs)
+
+
 def run(ctx):
     rng, quick = ctx.rng, ctx.tier == "quick"
     res = prove(ctx)
@@ -105,8 +334,12 @@ def run(ctx):
             if isinstance(r, Err) or r[0] == "refused" or r[0] or r[1] or r[3] == r[4]:
                 found.append({"key": {"pair": rq[1]}, "input": rq[1], "what": f"inequivalent complexes are identified: {r!r}",
                               "snippet": f"# harness op c02_distinct {rq[1]!r}"})
+        # several complexes side by side: refused requests, callers editing what they were handed, turns, deaths
+        hfound, nh, ns = history_search(ctx, rng, quick)
+        found += hfound
         ctx.cov["correspondence"]["orbits(impl)"] = {"complexes": len(pop), "presentations": sum(len(o[1][1]) for o in orbit_reqs),
-                                                     "distinct_pairs": len(dist), "failures": len(found)}
+                                                     "distinct_pairs": len(dist), "histories": nh, "history_steps": ns,
+                                                     "failures": len(found)}
     ctx.cov["rule"] = ("every well-formed structure up to the tier's bound over the domain alphabets {a} and {a,b} (identical "
                        "strands, rotational symmetry), hand-made symmetric complexes, random large ones; each in every rotation "
                        "(canonical form and turns compared with the model), and presented to the library in a random order of "
@@ -122,6 +355,11 @@ def replay(data):
     inp = data.get("input")
     if not inp:
         print(json.dumps(data.get("broken_links"))[:2000]); return 1
+    if inp[0] == "history":
+        r = run_impl([("c02_history", inp[1:])], jobs=1)[0]
+        print(r)
+        print(history_judge(inp[1], inp[2], r))
+        return 1
     op = "c02_orbit" if len(inp) >= 3 else "c02_distinct"
     print(run_impl([(op, inp)])[0])
     return 1
